@@ -254,8 +254,8 @@ def build(desc, root):
                 off += k
                 moff += mgap
                 mstart[i] = moff
-                if gone[i]:
-                    km = 0  # a halo that was merged into another has nothing merged into it
+                # a cleaned-away halo (N_total == 0) keeps whatever was merged into it: the statement only takes its *original*
+                # particles away (real merger trees rarely produce this, the format allows it)
                 mout[i] = km
                 moff += km
                 nmerge_tot[i] += km
